@@ -34,3 +34,182 @@ package middleware
 //@ loop 0 invariant nmInv(offers, specs, defaultOffer, rangeindex+1, 0, bestQ, bestWild, bestOffer)
 //@ loop 1 invariant calls(PA) == 1 && ret(PA,0,0) == specs && len(specs) > 0
 //@ loop 1 invariant nmInv(offers, specs, defaultOffer, outer(rangeindex)+1, rangeindex+1, bestQ, bestWild, bestOffer)
+
+// ---------------------------------------------------------------- spec.go, ui_options.go, redoc.go, rapidoc.go, swaggerui*.go (C20)
+
+//@ func Spec$1
+//@ watch CL = call path.Clean
+//@ watch HS = call (net/http.Header).Set
+//@ watch WH = invoke net/http.ResponseWriter.WriteHeader
+//@ watch WR = invoke net/http.ResponseWriter.Write
+//@ watch NX = invoke net/http.Handler.ServeHTTP
+//@ requires rw != nil && r != nil && r.URL != nil
+//@ ensures [C20:clean] calls(CL) == 1 && arg(CL,0,0) == old(r.URL.Path)
+//@ ensures [C20:hit] ret(CL,0,0) == pth ==> calls(NX) == 0 && calls(HS) == 1 && arg(HS,0,1) == "Content-Type" && arg(HS,0,2) == "application/json" && calls(WH) == 1 && arg(WH,0,0) == 200 && calls(WR) == 1 && arg(WR,0,0) == b && time(HS,0) < time(WH,0) && time(WH,0) < time(WR,0)
+//@ ensures [C20:miss] ret(CL,0,0) != pth && next != nil ==> calls(NX) == 1 && recv(NX,0) == next && arg(NX,0,0) == rw && arg(NX,0,1) == r && calls(HS) == 0 && calls(WH) == 0 && calls(WR) == 0
+//@ ensures [C20:notfound] ret(CL,0,0) != pth && next == nil ==> calls(NX) == 0 && calls(WH) == 1 && arg(WH,0,0) == 404 && calls(WR) == 0
+
+//@ func serveUI$1
+//@ watch CL = call path.Clean
+//@ watch HS = call (net/http.Header).Set
+//@ watch WH = invoke net/http.ResponseWriter.WriteHeader
+//@ watch WR = invoke net/http.ResponseWriter.Write
+//@ watch NX = invoke net/http.Handler.ServeHTTP
+//@ requires rw != nil && r != nil && r.URL != nil
+//@ ensures [C20:clean] calls(CL) == 1 && arg(CL,0,0) == old(r.URL.Path)
+//@ ensures [C20:hit] ret(CL,0,0) == pth ==> calls(NX) == 0 && calls(HS) == 1 && arg(HS,0,1) == "Content-Type" && arg(HS,0,2) == "text/html; charset=utf-8" && calls(WH) == 1 && arg(WH,0,0) == 200 && calls(WR) == 1 && arg(WR,0,0) == assets && time(HS,0) < time(WH,0) && time(WH,0) < time(WR,0)
+//@ ensures [C20:miss] ret(CL,0,0) != pth && next != nil ==> calls(NX) == 1 && recv(NX,0) == next && arg(NX,0,0) == rw && arg(NX,0,1) == r && calls(HS) == 0 && calls(WH) == 0 && calls(WR) == 0
+//@ ensures [C20:notfound] ret(CL,0,0) != pth && next == nil ==> calls(NX) == 0 && calls(WH) == 1 && arg(WH,0,0) == 404
+
+//@ func serveUI
+//@ watch MC = closure serveUI$1
+//@ ensures [C20:handler] calls(MC) == 1 && captured(MC,0,"pth") == pth && captured(MC,0,"assets") == assets && captured(MC,0,"next") == next && result == boxas(ret(MC,0,0), "http.HandlerFunc")
+
+//@ func Spec
+//@ watch SO = call specOptionsWithDefaults
+//@ watch J = call path.Join
+//@ watch MC = closure Spec$1
+//@ ensures [C20:path] calls(SO) == 1 && arg(SO,0,0) == opts && calls(J) == 1 && argv(J,0,0,0) == (basePath == "" ? "/" : basePath) && argv(J,0,0,1) == ret(SO,0,0).Path && argv(J,0,0,2) == ret(SO,0,0).Document
+//@ ensures [C20:handler] calls(MC) == 1 && captured(MC,0,"pth") == ret(J,0,0) && captured(MC,0,"b") == b && captured(MC,0,"next") == next && result == boxas(ret(MC,0,0), "http.HandlerFunc")
+
+//@ func (*uiOptions).EnsureDefaults
+//@ requires r != nil
+//@ ensures r.BasePath == (old(r.BasePath) == "" ? "/" : old(r.BasePath))
+//@ ensures r.Path == (old(r.Path) == "" ? "docs" : old(r.Path))
+//@ ensures r.SpecURL == (old(r.SpecURL) == "" ? "/swagger.json" : old(r.SpecURL))
+//@ ensures r.Title == (old(r.Title) == "" ? "API Documentation" : old(r.Title))
+//@ ensures r.Template == old(r.Template)
+//@ assigns r.BasePath, r.Path, r.SpecURL, r.Title
+
+// UI middlewares: defaults applied first, page path = Join(BasePath, Path), page rendered by html/template (escaping), served by serveUI
+
+//@ func Redoc
+//@ watch ED = call (*RedocOpts).EnsureDefaults
+//@ watch J = call path.Join
+//@ watch EX = call (*html/template.Template).Execute
+//@ watch SU = call serveUI
+//@ panics ok
+//@ ensures [C20:defaults] calls(ED) == 1
+//@ ensures [C20:path] calls(J) == 1 && argv(J,0,0,0) == arg(ED,0,0).BasePath && argv(J,0,0,1) == arg(ED,0,0).Path && arg(SU,0,0) == ret(J,0,0) && time(ED,0) < time(J,0)
+//@ ensures [C20:escape] calls(EX) == 1 && ret(EX,0,0) == nil
+//@ ensures [C20:serve] calls(SU) == 1 && arg(SU,0,2) == next && result == ret(SU,0,0) && time(ED,0) < time(EX,0) && time(EX,0) < time(SU,0)
+
+//@ func RapiDoc
+//@ watch ED = call (*RapiDocOpts).EnsureDefaults
+//@ watch J = call path.Join
+//@ watch EX = call (*html/template.Template).Execute
+//@ watch SU = call serveUI
+//@ panics ok
+//@ ensures [C20:defaults] calls(ED) == 1
+//@ ensures [C20:path] calls(J) == 1 && argv(J,0,0,0) == arg(ED,0,0).BasePath && argv(J,0,0,1) == arg(ED,0,0).Path && arg(SU,0,0) == ret(J,0,0) && time(ED,0) < time(J,0)
+//@ ensures [C20:escape] calls(EX) == 1 && ret(EX,0,0) == nil
+//@ ensures [C20:serve] calls(SU) == 1 && arg(SU,0,2) == next && result == ret(SU,0,0) && time(ED,0) < time(EX,0) && time(EX,0) < time(SU,0)
+
+//@ func SwaggerUI
+//@ watch ED = call (*SwaggerUIOpts).EnsureDefaults
+//@ watch J = call path.Join
+//@ watch EX = call (*html/template.Template).Execute
+//@ watch SU = call serveUI
+//@ panics ok
+//@ ensures [C20:defaults] calls(ED) == 1
+//@ ensures [C20:path] calls(J) == 1 && argv(J,0,0,0) == arg(ED,0,0).BasePath && argv(J,0,0,1) == arg(ED,0,0).Path && arg(SU,0,0) == ret(J,0,0) && time(ED,0) < time(J,0)
+//@ ensures [C20:escape] calls(EX) == 1 && ret(EX,0,0) == nil
+//@ ensures [C20:serve] calls(SU) == 1 && arg(SU,0,2) == next && result == ret(SU,0,0) && time(ED,0) < time(EX,0) && time(EX,0) < time(SU,0)
+
+//@ func SwaggerUIOAuth2Callback
+//@ watch ED = call (*SwaggerUIOpts).EnsureDefaultsOauth2
+//@ watch J = call path.Join
+//@ watch EX = call (*html/template.Template).Execute
+//@ watch SU = call serveUI
+//@ panics ok
+//@ ensures [C20:defaults] calls(ED) == 1
+//@ ensures [C20:path] calls(J) == 0 && arg(SU,0,0) == arg(ED,0,0).OAuthCallbackURL
+//@ ensures [C20:escape] calls(EX) == 1 && ret(EX,0,0) == nil
+//@ ensures [C20:serve] calls(SU) == 1 && arg(SU,0,2) == next && result == ret(SU,0,0) && time(ED,0) < time(EX,0) && time(EX,0) < time(SU,0)
+
+//@ func (Context).uiOptionsForHandler
+//@ watch UD = call uiOptionsWithDefaults
+//@ watch UP = call net/url.Parse
+//@ watch PS = call path.Split
+//@ watch WD = call WithSpecDocument
+//@ panics ok
+//@ ensures [C20:ui] calls(UD) == 1 && result1 == ret(UD,0,0)
+//@ ensures [C20:parse] calls(UP) == 1 && arg(UP,0,0) == ret(UD,0,0).SpecURL
+//@ ensures [C20:split] calls(PS) == 1 && (ret(UP,0,0) != nil ==> arg(PS,0,0) == ret(UP,0,0).Path) && (ret(UP,0,0) == nil ==> arg(PS,0,0) == "")
+//@ ensures [C20:specpath] result0 == (ret(PS,0,0) == "." ? "" : ret(PS,0,0))
+//@ ensures [C20:doc] calls(WD) == 1 && arg(WD,0,0) == ret(PS,0,1) && len(result2) == 1 && result2[0] == ret(WD,0,0)
+
+//@ func WithSpecDocument
+//@ watch MC = closure WithSpecDocument$1
+//@ ensures calls(MC) == 1 && captured(MC,0,"doc") == doc && result == ret(MC,0,0)
+//@ assigns \nothing
+
+//@ func WithSpecDocument$1
+//@ requires o != nil
+//@ ensures o.Document == (doc == "" ? old(o.Document) : doc) && o.Path == old(o.Path)
+//@ assigns o.Document
+
+//@ func WithSpecPath
+//@ watch MC = closure WithSpecPath$1
+//@ ensures calls(MC) == 1 && captured(MC,0,"pth") == pth && result == ret(MC,0,0)
+//@ assigns \nothing
+
+//@ func WithSpecPath$1
+//@ requires o != nil
+//@ ensures o.Path == pth && o.Document == old(o.Document)
+//@ assigns o.Path
+
+//@ func WithUISpecURL$1
+//@ requires o != nil
+//@ ensures o.SpecURL == specURL && o.BasePath == old(o.BasePath) && o.Path == old(o.Path) && o.Title == old(o.Title) && o.Template == old(o.Template)
+//@ assigns o.SpecURL
+
+//@ func WithUIPath$1
+//@ requires o != nil
+//@ ensures o.Path == pth && o.BasePath == old(o.BasePath) && o.SpecURL == old(o.SpecURL) && o.Title == old(o.Title) && o.Template == old(o.Template)
+//@ assigns o.Path
+
+//@ func WithUITitle$1
+//@ requires o != nil
+//@ ensures o.Title == title && o.BasePath == old(o.BasePath) && o.SpecURL == old(o.SpecURL) && o.Path == old(o.Path) && o.Template == old(o.Template)
+//@ assigns o.Title
+
+//@ func WithTemplate$1
+//@ requires o != nil
+//@ ensures o.Template == tpl && o.BasePath == old(o.BasePath) && o.SpecURL == old(o.SpecURL) && o.Path == old(o.Path) && o.Title == old(o.Title)
+//@ assigns o.Template
+
+// API handler flavours: Spec( specPath, raw spec, UI( options converted from the same uiOptions, routes ), WithSpecDocument(doc) )
+
+//@ func (*Context).APIHandler
+//@ watch UO = call (Context).uiOptionsForHandler
+//@ watch FC = call middleware.fromCommonToAnyOptions[middleware.RedocOpts]
+//@ watch SP = call Spec
+//@ watch UI = call Redoc
+//@ watch RH = call (*Context).RoutesHandler
+//@ requires c != nil
+//@ panics ok
+//@ ensures [C20:compose] calls(UO) == 1 && arg(UO,0,1) == opts && calls(FC) == 1 && arg(FC,0,0) == ret(UO,0,1) && calls(UI) == 1 && calls(RH) == 1 && arg(UI,0,1) == ret(RH,0,0)
+//@ ensures [C20:spec] calls(SP) == 1 && arg(SP,0,0) == ret(UO,0,0) && arg(SP,0,2) == ret(UI,0,0) && arg(SP,0,3) == ret(UO,0,2) && result == ret(SP,0,0)
+
+//@ func (*Context).APIHandlerRapiDoc
+//@ watch UO = call (Context).uiOptionsForHandler
+//@ watch FC = call middleware.fromCommonToAnyOptions[middleware.RapiDocOpts]
+//@ watch SP = call Spec
+//@ watch UI = call RapiDoc
+//@ watch RH = call (*Context).RoutesHandler
+//@ requires c != nil
+//@ panics ok
+//@ ensures [C20:compose] calls(UO) == 1 && arg(UO,0,1) == opts && calls(FC) == 1 && arg(FC,0,0) == ret(UO,0,1) && calls(UI) == 1 && calls(RH) == 1 && arg(UI,0,1) == ret(RH,0,0)
+//@ ensures [C20:spec] calls(SP) == 1 && arg(SP,0,0) == ret(UO,0,0) && arg(SP,0,2) == ret(UI,0,0) && arg(SP,0,3) == ret(UO,0,2) && result == ret(SP,0,0)
+
+//@ func (*Context).APIHandlerSwaggerUI
+//@ watch UO = call (Context).uiOptionsForHandler
+//@ watch FC = call middleware.fromCommonToAnyOptions[middleware.SwaggerUIOpts]
+//@ watch SP = call Spec
+//@ watch UI = call SwaggerUI
+//@ watch RH = call (*Context).RoutesHandler
+//@ requires c != nil
+//@ panics ok
+//@ ensures [C20:compose] calls(UO) == 1 && arg(UO,0,1) == opts && calls(FC) == 1 && arg(FC,0,0) == ret(UO,0,1) && calls(UI) == 1 && calls(RH) == 1 && arg(UI,0,1) == ret(RH,0,0)
+//@ ensures [C20:spec] calls(SP) == 1 && arg(SP,0,0) == ret(UO,0,0) && arg(SP,0,2) == ret(UI,0,0) && arg(SP,0,3) == ret(UO,0,2) && result == ret(SP,0,0)
